@@ -4,6 +4,7 @@ package main
 
 import (
 	"fmt"
+	"strings"
 
 	sdkmath "cosmossdk.io/math"
 	govtypes "github.com/KiraCore/sekai/x/gov/types"
@@ -267,6 +268,20 @@ func init() {
 				if infos[len(infos)-1].Key == infos[0].Key {
 					infos = infos[:len(infos)-1]
 				}
+			}
+			if g.chance(1, 4) {
+				// several keys this address has never used, one of them given twice (second time in another letter case,
+				// or verbatim): the order in which new record ids are handed out must be the message order on every replica
+				n := 2 + g.rn(3)
+				for i := 0; i < n; i++ {
+					infos = append(infos, govtypes.IdentityInfoEntry{Key: fmt.Sprintf("fresh%d_%d_%d", s, g.b, i), Info: fmt.Sprintf("f%d", i)})
+				}
+				dup := infos[len(infos)-1-g.rn(n)]
+				if g.chance(1, 2) {
+					dup.Key = strings.ToUpper(dup.Key[:1]) + dup.Key[1:]
+				}
+				dup.Info = "again"
+				infos = append(infos, dup)
 			}
 			return g.add("ident-register", s, govtypes.NewMsgRegisterIdentityRecords(g.A(s), infos))
 		}},
